@@ -408,6 +408,32 @@ theorem c01_gen_guards (a b n : Nat) :
   ⟨guard_advance_gen a n, guard_advance_nospec_gen a n, guard_write_gen a b n, guard_write_u8_n_gen a b n,
    guard_append_gen a b n, guard_buf_advance_gen a b n⟩
 
+/-- the model's validity predicates are the library's `aws_byte_buf_is_valid` / `aws_byte_cursor_is_valid` as written in
+byte_buf.c (cut out and re-translated on every run; pointers as addresses with NULL = 0, `PtrOf rid p` : `p ≠ 0 ↔` the
+model pointer is not NULL), for every non-NULL `buf` / `cursor` argument -/
+theorem c01_gen_valid (b : Buf) (c : Cur) (self p : Nat) (hs : self ≠ 0) :
+    (PtrOf b.rid p → b.isValid = ByteBufFns.verif_valid_byte_buf self b.cap b.len p) ∧
+    (PtrOf c.rid p → c.isValid = ByteBufFns.verif_valid_byte_cursor self c.len p) :=
+  ⟨bufIsValid_gen b self p hs, curIsValid_gen c self p hs⟩
+
+/-- [A] after every operation sequence every buffer and every cursor satisfies the library's own validity predicate as
+written in the source — what a DEBUG_BUILD asserts before and after each byte-buffer call -/
+theorem c01_is_valid_all (ops : List Op) (i self p : Nat) (hs : self ≠ 0) :
+    (PtrOf ((run State.init ops).bufs i).rid p →
+      ByteBufFns.verif_valid_byte_buf self ((run State.init ops).bufs i).cap ((run State.init ops).bufs i).len p = true) ∧
+    (PtrOf ((run State.init ops).curs i).rid p →
+      ByteBufFns.verif_valid_byte_cursor self ((run State.init ops).curs i).len p = true) := by
+  have hw := c01_inv_run c01_init_wf ops
+  refine ⟨fun hp => ?_, fun hp => ?_⟩
+  · rw [← bufIsValid_gen _ self p hs hp]; exact (hw.1.1 i).isValid
+  · rw [← curIsValid_gen _ self p hs hp]; exact (hw.2.1 i).isValid
+
+/-- the predicates are not constant: a buffer with `len > capacity` and a non-empty cursor at NULL are rejected, a
+filled buffer and an empty NULL cursor accepted -/
+example : ByteBufFns.verif_valid_byte_buf 1 4 5 8 = false ∧ ByteBufFns.verif_valid_byte_buf 1 4 3 8 = true ∧
+    ByteBufFns.verif_valid_byte_buf 1 0 0 8 = false ∧ ByteBufFns.verif_valid_byte_buf 0 4 3 8 = false ∧
+    ByteBufFns.verif_valid_byte_cursor 1 2 0 = false ∧ ByteBufFns.verif_valid_byte_cursor 1 0 0 = true := by decide
+
 /-- `aws_add_size_checked`, `aws_add_size_saturating`, `aws_mul_u64_checked`, `aws_add_u64_checked` (`none` ↦
 `AWS_ERROR_OVERFLOW_DETECTED` = 5) -/
 theorem c01_gen_checked_arith (a b : Nat) :
